@@ -73,7 +73,10 @@ func UnmarshalTokenChallenge(data []byte) (TokenChallenge, error) {
 	if !s.ReadUint16LengthPrefixed(&originInfo) {
 		return TokenChallenge{}, fmt.Errorf("invalid TokenRequest encoding")
 	}
-	challenge.OriginInfo = strings.Split(string(originInfo), ",")
+	if len(originInfo) > 0 {
+		// strings.Split of the empty string is one empty element, not no element
+		challenge.OriginInfo = strings.Split(string(originInfo), ",")
+	}
 
 	return challenge, nil
 }
